@@ -186,7 +186,7 @@ func TestRejects(t *testing.T) {
 		funcs            []string
 	}{
 		{"goto", "func F(d []byte) int { L: for { break L }; return 0 }", "statement", nil},
-		{"switch", "func F(d []byte) int { switch len(d) { case 0: return 1 }; return 0 }", "statement of kind *ast.SwitchStmt", nil},
+		{"typeswitch", "func F(d []byte) int { var x any = d; switch x.(type) { case nil: return 1 }; return 0 }", "", nil},
 		{"nilcmp", "func F(d []byte) bool { return d == nil }", "with nil", nil},
 		{"alias-store", "func F(d []byte) []byte { d[0] = 1; return d }", "not made by make", nil},
 		{"alias-make", "func F(n int) []byte { d := make([]byte, n); e := d; e[0] = 1; return d }", "alias", nil},
